@@ -31,7 +31,8 @@ RULE = (
     "family of one target weight W_k: df = A_{a,i} 4 pi^2 E /(W_k J_z J_par p_par) P_z P_par / "
     "sqrt((1-rz^2)(1-rp^2)), P = (1-x^2) q with integer Chebyshev coefficients, degrees up to 2N-1 and "
     "2N-3 (Lobatto exactness), an arbitrary finite value at the p_par = 0 node; a second smooth deviation "
-    "(polynomial x exp(-E/T0)) for linearity and the stress tensor. Non-trivial = non-constant q_z and "
+    "(polynomial x exp(-E/T0)) for linearity and the stress tensor; in half of the cases the grid object was used "
+    "before by another collision array changing basis or by a solver in the other bases. Non-trivial = non-constant q_z and "
     "q_par and m^2 not identically zero. Distinct by canonical JSON of the case."
 )
 BUDGET = {
@@ -125,6 +126,10 @@ def st_case(draw, tier):
     rescale_from = draw(st.sampled_from([None, None, 0.4, 2.5, 10.0]))
     return {"kind": "moments", "gk": gk, "M": M, "N": N, "T0": T0, "rescale_from": rescale_from,
             "recycle_bg": draw(st.sampled_from([False, False, True])),
+            # call history on the SHARED grid object: another user of the same grid changes the basis of its own
+            # collision array (inverse-transposed matrices) or computes moments in another basis first
+            "grid_history": draw(st.sampled_from([None, None, None, "coll-to-Cardinal", "coll-to-Chebyshev",
+                                                  "other-solver"])),
             "basisM": draw(st.sampled_from(R.BASES)), "basisN": draw(st.sampled_from(R.BASES)),
             "particles": parts, "field": field, "family": fam, "qz": qz, "qp": qp, "amp": amp, "pp0": pp0,
             "g_z": g_z, "g_p": g_p, "g_amp": g_amp, "ab": ab, "vmid": float(vmid),
@@ -213,8 +218,24 @@ def build_solver(case):
         np.asarray(bg.temperatureProfile)[...] = 1.7 * T0
         np.asarray(bg.velocityProfile)[...] = 0.3
         bg.velocityMid = 0.2
-    coll = CollisionArray(grid, case["basisN"], particles)
     P, n1 = len(particles), N - 1
+    hist = case.get("grid_history")
+    if hist in ("coll-to-Cardinal", "coll-to-Chebyshev"):
+        target = hist.split("-")[-1]
+        other = CollisionArray(grid, "Chebyshev" if target == "Cardinal" else "Cardinal", particles)
+        other.polynomialData.coefficients = np.cos(np.arange((P * n1 * n1) ** 2, dtype=float)).reshape(
+            (P, n1, n1, P, n1, n1))
+        other.changeBasis(target)
+    elif hist == "other-solver":
+        flip = {"Cardinal": "Chebyshev", "Chebyshev": "Cardinal"}
+        s2 = BoltzmannSolver(grid, flip[case["basisM"]], flip[case["basisN"]], "Spectral")
+        s2.updateParticleList(particles)
+        s2.setBackground(bg)
+        c2 = CollisionArray(grid, flip[case["basisN"]], particles)
+        c2.polynomialData.coefficients = np.eye(P * n1 * n1).reshape((P, n1, n1, P, n1, n1))
+        s2.setCollisionArray(c2)
+        s2.getDeltas(np.sin(np.arange(P * (M - 1) * n1 * n1, dtype=float)).reshape((P, M - 1, n1, n1)))
+    coll = CollisionArray(grid, case["basisN"], particles)
     data = np.zeros((P, n1, n1, P, n1, n1))
     for a in range(P):
         for j in range(n1):
@@ -274,6 +295,7 @@ def check_case(case) -> Verdict:
             "degp:fills_class" if len(case["qp"]) - 1 == max(2 * N - 5, 1) else "degp:inside",
             f"T0:1e{int(np.floor(np.log10(T0)))}", "grid:rescaled" if case.get("rescale_from") else "grid:direct",
             "background:recycled-by-caller" if case.get("recycle_bg") else "background:untouched",
+            f"grid-history:{case.get('grid_history') or 'none'}",
             "c0:zero" if tz[0] * tp[0] == 0 else "c0:nonzero",
             *{f"stat:{p['stat']}" for p in case["particles"]})
     cls = f"{fam} basis={case['basisM'][:4]}/{case['basisN'][:4]}"
